@@ -230,8 +230,27 @@ func doFile(path string) error {
 			})
 		}
 	}
-	if r.n == 0 {
+	// logrus -> stateless stub (see verif/stublog)
+	relogged := false
+	for _, im := range f.Imports {
+		if im.Path.Value == `"github.com/sirupsen/logrus"` {
+			im.Path.Value = `"verif/stublog"`
+			if im.Name == nil {
+				im.Name = ast.NewIdent("logrus")
+			}
+			relogged = true
+		}
+	}
+	if r.n == 0 && !relogged {
 		return nil
+	}
+	if r.n == 0 {
+		var buf bytes.Buffer
+		cfg := printer.Config{Mode: printer.UseSpaces | printer.TabIndent, Tabwidth: 8}
+		if err := cfg.Fprint(&buf, fset, f); err != nil {
+			return err
+		}
+		return os.WriteFile(path, buf.Bytes(), 0o644)
 	}
 	// add the import as the first declaration
 	imp := &ast.GenDecl{Tok: token.IMPORT, Specs: []ast.Spec{
